@@ -101,3 +101,33 @@ Theorem C03_normal_is_creators_then_annihilators :
   forall s, normal s -> exists a b, s = a ++ b /\ Forall (fun o => odag o = true) a /\ Forall (fun o => odag o = false) b.
 Proof. exact normal_shape. Qed.
 Print Assumptions C03_normal_is_creators_then_annihilators.
+
+(* the spin-summed ("spinfree") mode of wick.py (SpinWick.v): patterns carry spin labels, their value is the sum over
+   all spin assignments (a spin-free RDM entry); one rewriting step - swap with -1; contract equal orbitals: same label
+   -> factor 2 and the label disappears, different labels -> the second label is renamed to the first - preserves the
+   value; every orbital count, vector and commutative ring *)
+From FQE Require Import SpinWick.
+Theorem C03_spinfree_wick_step_sound :
+  forall (R : Type) (rO rI : R) (radd rmul rsub : R -> R -> R) (ropp : R -> R),
+  ring_theory rO rI radd rmul rsub ropp eq ->
+  forall (norb : nat) (L : list nat) (pre : list sop) (p l q m : nat) (post : list sop) (V : vec R) (d : det),
+  p < norb -> q < norb -> wide R (norb + norb) V -> NoDup L -> In l L -> In m L ->
+  incl (labels (pre ++ post)) L ->
+  (l = m -> ~ In l (labels (pre ++ post))) ->
+  sval R rO radd ropp norb L (pre ++ [mksop p false l; mksop q true m] ++ post) V d
+  = radd (ropp (sval R rO radd ropp norb L (pre ++ [mksop q true m; mksop p false l] ++ post) V d))
+         (if Nat.eqb p q then
+            if Nat.eqb l m then rmul (radd rI rI) (sval R rO radd ropp norb (remove Nat.eq_dec l L) (pre ++ post) V d)
+            else sval R rO radd ropp norb (remove Nat.eq_dec m L) (map (relabel m l) (pre ++ post)) V d
+          else rO).
+Proof. exact sstep_sound. Qed.
+Print Assumptions C03_spinfree_wick_step_sound.
+
+(* the order in which the labels are summed is immaterial, an unused label contributes the factor 2 *)
+Theorem C03_spinfree_unused_label :
+  forall (R : Type) (rO rI : R) (radd rmul rsub : R -> R -> R) (ropp : R -> R),
+  ring_theory rO rI radd rmul rsub ropp eq ->
+  forall norb l L s (V : vec R) d, ~ In l (labels s) ->
+  sval R rO radd ropp norb (l :: L) s V d = rmul (radd rI rI) (sval R rO radd ropp norb L s V d).
+Proof. exact sval_unused_label. Qed.
+Print Assumptions C03_spinfree_unused_label.
